@@ -67,6 +67,8 @@ func runC13(c *Ctx) {
 			c.ok("R13.6", "HTTP response bodies", "-", "read without a cap")
 		}
 	}
+	c.ruleOpt("R13.7", "the error reply for a panicking call is not encoded into pooled memory that is handed back before it is written")
+	c.pooledUseAfterPut("R13.7")
 	c.rule("R13.4", "the error reply for a panicking handler has somewhere to go: the writer provider handed to the dispatcher is never nil (a nil provider turns the recovered panic into a crash on the library's own goroutine)")
 	c.wsWriterChoice("R13.4")
 
